@@ -1,6 +1,6 @@
 """Float-division rule (C14-D4, C10-D4, C12-D2): every f32/f64 division's divisor must be provably non-zero by a local idiom."""
 from .cfgq import bool_taken, Scope
-from .exprs import short_callee, strip, origin_desc, walk
+from .exprs import ExprBuilder, short_callee, strip, origin_desc, walk
 from .mir import op_place, op_const, pl_local
 
 
@@ -140,6 +140,11 @@ def classify_div(inv, sc, site):
             if nonzero:
                 site["guard"] = "guarded by a dominating comparison of the divisor (%s %s %s is %s)" % (dn, n[1], y[1], v)
                 return
+    # an expression of the function's parameters that folds to a non-zero constant at every call site in the workspace
+    g = params_fold_nonzero(inv.prog, site["fn"], d)
+    if g:
+        site["guard"] = g
+        return
     # len() as f32 under a non-emptiness guard
     inner = strip(d[1]) if d[0] == "cast" else d
     if inner[0] == "call" and short_callee(inner[1]) == "len" and inner[2]:
@@ -148,6 +153,60 @@ def classify_div(inv, sc, site):
         if inv.len_guard(cdescs, coll, 1):
             site["guard"] = "divisor len() under a non-emptiness test"
             return
+
+
+def params_fold_nonzero(prog, fn, d):
+    """divisor = arithmetic over parameters of a plain function; every call of the function in the workspace passes constants for
+    which it folds to a non-zero value"""
+    from .exprs import walk
+    from .mir import callee_of
+    from .tables import const_eval
+    if fn.kind not in ("fn", "assocfn") or fn.root != fn.id:
+        return None
+    leaves = [x for x in walk(d) if x[0] in ("arg", "var", "proj", "call", "upvar", "elem")]
+    if not leaves or any(x[0] != "arg" for x in leaves):
+        return None
+    sites = []
+    for f in prog.fns.values():
+        for b, t in f.body.calls():
+            c = callee_of(t)
+            if c and (c.get("rid") or c["id"]) == fn.id:
+                sites.append((f, t))
+    if not sites:
+        return None
+
+    def subst(n, args):
+        n = strip(n)
+        if n[0] == "arg":
+            return args.get(n[1])
+        if n[0] == "bin":
+            a, b = subst(n[2], args), subst(n[3], args)
+            return None if a is None or b is None else ("bin", n[1], a, b)
+        if n[0] == "un":
+            a = subst(n[2], args)
+            return None if a is None else ("un", n[1], a)
+        if n[0] == "cast":
+            a = subst(n[1], args)
+            return None if a is None else ("cast", a, n[2])
+        if n[0] == "k":
+            return n
+        return None
+    vals = set()
+    for f, t in sites:
+        eb = ExprBuilder(f.body)
+        args = {}
+        for i, a in enumerate(t["args"], 1):
+            an = strip(eb.operand(a))
+            if an[0] == "un" and an[1] == "Neg" and strip(an[2])[0] == "k":
+                an = ("k", "-" + strip(an[2])[1], None, None)
+            if an[0] == "k":
+                args[i] = an
+        e = subst(d, args)
+        v = const_eval(e) if e is not None else None
+        if v is None or v == 0:
+            return None
+        vals.add(float(v))
+    return "divisor is a function of the parameters only and is %s at all %d call sites in the workspace" % (sorted(vals), len(sites))
 
 
 def assign_div_keys(prog, sites, rule):
